@@ -68,7 +68,7 @@ FRAGMENTS = {
     "footnote_unreferenced": (["[^unref]: never referenced"], ["ref.footnote"], True),
     "footnote_duplicate": (["[^fdup]: one", "", "[^fdup]: two", "", "uses [^fdup]"], ["ref.footnote"], True),
 }
-SPECIAL = ["topmatter", "header", "heading_slug", "inv_retrieval", "deprecated"]
+SPECIAL = ["topmatter", "header", "heading_slug", "inv_retrieval", "deprecated", "inv_bad_header", "inv_bad_zlib"]
 WRAPS = [None, None, "quote", "list", "note"]
 
 _known = None
@@ -129,6 +129,18 @@ def build(case, tmp):
     invs = {"good": ["https://e.org/", os.path.join(tmp, "objects.inv")]}
     if "inv_retrieval" in specials and n_inv:
         invs["bad"] = ["https://bad.org/", os.path.join(tmp, "nosuch.inv")]
+        tags.append("myst.inv_retrieval")
+    # ... and inventories whose file exists but cannot be read as one (the same catalogue entry covers every failure)
+    if "inv_bad_header" in specials and n_inv:
+        with open(os.path.join(tmp, "garbage.inv"), "wb") as fh:
+            fh.write(b"this is not an inventory\n")
+        invs["bad2"] = ["https://bad2.org/", os.path.join(tmp, "garbage.inv")]
+        tags.append("myst.inv_retrieval")
+    if "inv_bad_zlib" in specials and n_inv:
+        with open(os.path.join(tmp, "damaged.inv"), "wb") as fh:
+            fh.write(b"# Sphinx inventory version 2\n# Project: p\n# Version: 1\n# The remainder of this file is compressed using zlib.\n"
+                     b"certainly not a zlib stream")
+        invs["bad3"] = ["https://bad3.org/", os.path.join(tmp, "damaged.inv")]
         tags.append("myst.inv_retrieval")
     settings["myst_inventories"] = invs
     if "deprecated" in specials:
@@ -328,7 +340,7 @@ def case_st(draw, sphinx=False):
     for _ in range(draw(st.integers(1, 7))):
         f = draw(st.sampled_from(names + ["filler"]))
         items.append({"frag": f, "wrap": draw(st.sampled_from(WRAPS))})
-    special = draw(st.lists(st.sampled_from(["topmatter", "header", "heading_slug"] + ([] if sphinx else ["inv_retrieval", "deprecated"])),
+    special = draw(st.lists(st.sampled_from(["topmatter", "header", "heading_slug"] + ([] if sphinx else ["inv_retrieval", "deprecated", "inv_bad_header", "inv_bad_zlib"])),
                             max_size=3, unique=True))
     # candidate suppress entries: the tags this document can emit, the bare types, wildcards, unrelated ones
     poss = set()
@@ -337,7 +349,7 @@ def case_st(draw, sphinx=False):
             poss.update(FRAGMENTS[it["frag"]][1])
     for s in special:
         poss.add("myst." + {"topmatter": "topmatter", "header": "header", "heading_slug": "heading_slug", "inv_retrieval": "inv_retrieval",
-                            "deprecated": "deprecated"}[s])
+                            "deprecated": "deprecated", "inv_bad_header": "inv_retrieval", "inv_bad_zlib": "inv_retrieval"}[s])
     pool = sorted(poss) + ["myst", "myst.*", "ref", "ref.*", "docutils", "myst.nosuch", "other.thing", "ref.footnote", "myst.header"]
     S = draw(st.lists(st.sampled_from(pool), max_size=4, unique=True))
     case = {"items": items, "special": special, "suppress": S}
@@ -394,7 +406,8 @@ def sub_each(acc, shard, nshards, tier, seed):
                     _record(acc, check_case(acc, {"items": items, "special": [], "suppress": S}))
     for sp in SPECIAL:
         for S in ([], ["myst"], ["myst." + {"topmatter": "topmatter", "header": "header", "heading_slug": "heading_slug",
-                                              "inv_retrieval": "inv_retrieval", "deprecated": "deprecated"}[sp]]):
+                                              "inv_retrieval": "inv_retrieval", "deprecated": "deprecated",
+                                              "inv_bad_header": "inv_retrieval", "inv_bad_zlib": "inv_retrieval"}[sp]]):
             i += 1
             if i % nshards != shard:
                 continue
